@@ -208,6 +208,9 @@ def refusal_tables(v):
         total = MUL(d, M(v, 'size'))
         T += [('base-not-contract-base', 'L', lambda e: isf(e, ('val', EQ(F(CFG, 'base_denom'), M(v, 'base')), False))),
               ('total-overflow', 'I', lambda e: isf(e, ('is', ('rcall', 'checked_mul', (d, M(v, 'size'))), 'None'))),
+              # Decimal::from(u128) panics above the 96-bit mantissa; the explicit from_u128(..).ok_or(..) spelling makes the same refusal visible
+              ('amount-exceeds-decimal-range', 'I', lambda e: e['fact'] is not None and e['fact'][0] == 'is' and e['fact'][2] == 'None' and e['fact'][1][0] == 'rcall' and e['fact'][1][1] == 'from_u128'
+                  and e['fact'][1][2] in ((M(v, 'size'),), (M(v, 'quote_size'),))),
               ('total-fractional', 'L', lambda e: isf(e, ('val', EQ(('fract', total), I(0)), False))),
               ('total-differs-from-quote_size', 'L', lambda e: isf(e, ('val', EQ(M(v, 'quote_size'), total), False))),
               ('fee-rate-unparsable', 'D(K)', lambda e: isf(e, ('is', ('rcall', 'from_str', (F(SOMEV(F(CFG, 'bid_fee_info')), 'rate'),)), 'Err'))),
